@@ -282,6 +282,70 @@ def body(chk, db, cfgname):
                 r4.bad(site, g.loc(), "; ".join(problems), cfgname)
             else:
                 r4.ok(site, g.loc(), "for every RightIndex in [0,NumberOfBlocks) with mapsTo(RightIndex).isCorrect(): one part (H[Right] -> H[Left]) registered in parts and both maps", cfgname)
+    # parts constructed anywhere else (a container mirroring parts, a helper): the Hamiltonian blocks handed to the constructor
+    # must be the blocks under which the part is registered — (HFrom, HTo) = (block of the right index, block of the left index)
+    def _block_token(k):
+        from pv.entail import strip_value_conv
+        k = strip_value_conv(k)
+        if isinstance(k, tuple) and k and k[0] in ("un", "op") and k[1] == "*" and len(k) == 3:
+            k = ("deref", k[2])
+        if k[0] == "mcall" and k[1] in ("Pomerol::Hamiltonian::getPart",) and len(k) == 4:
+            return ("block", _block_token(k[3]))
+        if k[0] == "field" and k[1] == FP + "::HFrom":
+            return ("block", ("right-of", _block_token(k[2])))
+        if k[0] == "field" and k[1] == FP + "::HTo":
+            return ("block", ("left-of", _block_token(k[2])))
+        if k[0] == "mcall" and k[1] == "Pomerol::HamiltonianPart::getBlockNumber" and len(k) == 3:
+            t = _block_token(k[2])
+            return t[1] if t[0] == "block" else ("blocknumber-of", t)
+        if k[0] == "mcall" and k[1] == FP + "::getRightIndex" and len(k) == 3:
+            return ("right-of", _block_token(k[2]))
+        if k[0] == "mcall" and k[1] == FP + "::getLeftIndex" and len(k) == 3:
+            return ("left-of", _block_token(k[2]))
+        return k
+    known_sites = {"Pomerol::CreationOperator::prepare", "Pomerol::AnnihilationOperator::prepare", "Pomerol::QuadraticOperator::prepare",
+                   "Pomerol::AnnihilationOperatorPart::transpose", "Pomerol::CreationOperatorPart::transpose"}
+    for g in sorted([x for x in db.fns.values() if ("/src/" in x.file or "/include/" in x.file) and x.body is not None and x.body >= 0 and x.qn not in known_sites], key=lambda y: (y.file, y.line, y.mangled)):
+        news = [j for j, n in g.walk(g.body) if n["k"] == "new" and n["at"] in ("Pomerol::CreationOperatorPart", "Pomerol::AnnihilationOperatorPart", "Pomerol::QuadraticOperatorPart")]
+        if not news:
+            continue
+        gctx = Ctx(g, db)
+        for N in news:
+            site = "%s:part-construction@%s" % (g.qn, g.loc(N).rsplit(":", 1)[-1])
+            with r4.guard(site, g.loc(N), cfgname):
+                a = gctx.key(N)[2][2:]
+                if len(a) < 4:
+                    raise AnalysisBroken("constructor arguments not recognised")
+                hf, ht = _block_token(a[2]), _block_token(a[3])
+                regs = {}
+                for j, n in g.walk(g.body):
+                    if (n["k"] == "call" and n.get("ck") == "op" and n.get("op") == "=") or (n["k"] == "bin" and n["op"] == "="):
+                        lk = gctx.key(n["args"][0] if n["k"] == "call" else n["l"])
+                        if lk[0] == "op" and lk[1] == "[]" and lk[2][0] == "field" and lk[2][1] in ("Pomerol::FieldOperator::mapPartsFromRight", "Pomerol::FieldOperator::mapPartsFromLeft"):
+                            regs[lk[2][1].split("::")[-1]] = _block_token(lk[3])
+                if len(regs) != 2:
+                    raise AnalysisBroken("a field-operator part is constructed outside prepare() and its registration under a right / left block was not found")
+                probs = []
+
+                def _tok(t):
+                    if isinstance(t, tuple) and t and t[0] in ("right-of", "left-of"):
+                        return "the %s block of another part" % t[0].split("-")[0]
+                    if isinstance(t, tuple) and t and t[0] == "block":
+                        return _tok(t[1])
+                    return str(t[-1]) if isinstance(t, tuple) and t and t[0] in ("var", "param") else "another block expression"
+                comparable = lambda t: isinstance(t, tuple) and t and (t[0] in ("right-of", "left-of", "var", "param"))
+                for side, h_, idx in (("right", hf, 2), ("left", ht, 3)):
+                    reg = regs["mapPartsFrom" + side.capitalize()]
+                    if h_ == ("block", reg):
+                        continue
+                    if not (h_[0] == "block" and comparable(h_[1]) and comparable(reg)):
+                        raise AnalysisBroken("the block of the Hamiltonian part passed as %s and the %s block the part is registered under are written in forms that cannot be compared" % ("HFrom" if side == "right" else "HTo", side))
+                    probs.append("the part is registered under %s as its %s block but is constructed with %s = %s, i.e. %s" % (
+                        _tok(reg), side, "HFrom" if side == "right" else "HTo", g.s(g.nodes[g.nodes[N]["init"]]["args"][idx])[:40], _tok(h_)))
+                if probs:
+                    r4.bad(site, g.loc(N), "; ".join(probs) + ": the part reports (and rotates with) the wrong pair of blocks", cfgname)
+                else:
+                    r4.ok(site, g.loc(N), "HFrom / HTo are the blocks the part is registered under (right / left)", cfgname)
     # ================================================================== R5
     r5 = chk.rule("C10-R5", "look-ups by left / right block use the map of their own side (also when they forward to another overload)", "F4 same-role wiring", 4)
     sides = {"Left": ("mapPartsFromLeft", "getPartFromLeftIndex", "getLeftIndex"), "Right": ("mapPartsFromRight", "getPartFromRightIndex", "getRightIndex")}
@@ -318,6 +382,48 @@ def body(chk, db, cfgname):
             r5.unknown(site, g.loc(), "neither of the two side maps nor a sibling look-up is used", cfgname)
         else:
             r5.unknown(site, g.loc(), "uses both sides (%s)" % ", ".join(sorted(u for _, u in used)), cfgname)
+    # ================================================================== R6
+    r6 = chk.rule("C10-R6", "part-level conjugation (AnnihilationOperatorPart::transpose / CreationOperatorPart::transpose): the new part lives on the swapped block pair, carries the same index and both of its storages are the transposed (or adjoint) storages of this part", "F4 same-role wiring", 2)
+    for cls, other in (("Pomerol::AnnihilationOperatorPart", "Pomerol::CreationOperatorPart"), ("Pomerol::CreationOperatorPart", "Pomerol::AnnihilationOperatorPart")):
+        g = db.fn(cls + "::transpose", nparams=0)
+        site = cls + "::transpose"
+        with r6.guard(site, g.loc(), cfgname):
+            gctx = Ctx(g, db)
+            news = [j for j, n in g.walk(g.body) if n["k"] == "new"]
+            if len(news) != 1 or g.nodes[news[0]]["at"] != other:
+                raise AnalysisBroken("%s does not create one %s" % (site, other))
+            nk = gctx.key(news[0])
+            a = nk[2][2:]
+            probs = []
+            if len(a) < 5 or a[2] != fld(FP + "::HTo") or a[3] != fld(FP + "::HFrom"):
+                probs.append("the conjugated part is not created on the swapped block pair (HFrom <- this->HTo, HTo <- this->HFrom)")
+            if len(a) >= 5 and a[4] != fld(FP + "::PIndex"):
+                probs.append("the conjugated part does not carry this part's index")
+            stores = {}
+            for j, n in g.walk(g.body):
+                if (n["k"] == "call" and n.get("ck") == "op" and n.get("op") == "=") or (n["k"] == "bin" and n["op"] == "="):
+                    k = gctx.key(j)
+                    l_, r_ = k[2], k[3]
+                    if l_[0] == "field" and l_[1] in (FP + "::" + ROWMAJOR, FP + "::" + COLMAJOR) and l_[2] != THIS:
+                        stores[l_[1].split("::")[-1]] = (j, r_)
+            for nm in (ROWMAJOR, COLMAJOR):
+                if nm not in stores:
+                    probs.append("%s of the new part is not set" % nm)
+                    continue
+                j, r_ = stores[nm]
+                while r_[0] in ("cast", "ctor") and len(r_) == 3:
+                    r_ = r_[2]
+                if r_[0] == "mcall" and r_[1].split("::")[-1] in ("transpose", "adjoint") and len(r_) == 3 and r_[2][0] == "field" and r_[2][2] == THIS and r_[2][1] in (FP + "::" + ROWMAJOR, FP + "::" + COLMAJOR):
+                    continue
+                if r_[0] == "field" and r_[2] == THIS and r_[1] in (FP + "::" + ROWMAJOR, FP + "::" + COLMAJOR):
+                    probs.append("%s of the new part is a plain copy of this part's %s: converting between row-major and column-major storage keeps the matrix, nothing is transposed" % (nm, r_[1].split("::")[-1]))
+                else:
+                    raise AnalysisBroken("%s of the conjugated part is computed in a form that is not analysed" % nm)
+            if probs:
+                r6.bad(site, g.loc(), "; ".join(probs), cfgname)
+            else:
+                r6.ok(site, g.loc(), "new %s(.., HTo, HFrom, PIndex) with both storages transposed" % other.split("::")[-1], cfgname)
+
     chk.undecided.append("{c_i, c+_j} = delta_ij assembled over all blocks; Fock-basis back-transformation equals the Jordan-Wigner matrix (value level); degenerate eigenvectors")
 
 
